@@ -323,6 +323,11 @@ def run(ctx):
     missing = [kd for kd in KINDS if kd not in seen_kinds]
     if missing:
         ctx.broke('vacuity:tamper-kinds', f'kinds never exercised: {missing}')
+    try:
+        from .. import c01_enc
+        c01_enc.stage_byte(ctx)
+    except Exception as e:
+        ctx.broke('stage:byte', repr(e))
 
 
 def replay(rp):
